@@ -78,4 +78,9 @@ CHECKS = {
         ref="5 C20", note="Trusted: TLC, the line splitter. Pool: spec/data/phase_pool.json. An output path is always given; parser-safe optional fields.",
         technique="TLC model checking of Phase.tla + replay through gaftools phase; TLC validation of every output line",
     ),
+    "C16": dict(
+        text="GafRecord.tla defines what re-serialisation must preserve (sequence of <tag,type,value> minus cg/ds, nothing invented) and generates every optional-field list within the bound (all six SAM types, punctuation alphabet, repeated tags, cg absent/at every position); every generated record goes through view --node, view --format (both directions), view --node --format and realign; TLC (Check_Tags) decides each re-emitted record. One known finding (D16, repeated tags) is listed in known_findings.json by its specific clause.",
+        ref="5 C16", note="Trusted: TLC, the field splitter (split at the first two colons). Bounds: first field exhaustive over values of length <=2 (quick) / <=3 (thorough), second field from a representative set; no tabs, no CRLF, no repeated cg.",
+        technique="TLC bounded enumeration of GafRecord field lists replayed through every re-emitting command; TLC validation of tag sequences",
+    ),
 }
